@@ -138,6 +138,22 @@ def putObj (st : St) (k : List Bytes) (d : List Seg) : St :=
 
 def findObj (st : St) (k : List Bytes) : Option Obj := st.objs.find? fun o => o.key == k
 
+/-- Where the filer stores a PUT / copy destination `k` (`saveMetaData`):
+    * some object is a proper ancestor of `k` ("… is a file", 409 → the gateway answers 500): refused;
+    * `k` names an existing directory: the data is stored INSIDE it, as `k/<last segment of k>`;
+    * otherwise at `k`. -/
+def putTarget (st : St) (k : List Bytes) : Option (List Bytes) :=
+  if st.objs.any (fun o => o.key.length < k.length && isUnder o.key k) then none
+  else if st.objs.any (fun o => k.length < o.key.length && isUnder k o.key) then
+    match k.getLast? with
+    | some l => some (k ++ [l])
+    | none => none
+  else some k
+
+/-- `mkFile` of a completed upload goes through gRPC CreateEntry: both conflicts are refused -/
+def completeAllowed (st : St) (k : List Bytes) : Bool :=
+  !(st.objs.any fun o => (o.key.length < k.length && isUnder o.key k) || (k.length < o.key.length && isUnder k o.key))
+
 /-- single DELETE: the filer deletes the entry and everything below it -/
 def delRecursive (st : St) (k : List Bytes) : St :=
   if k = [] then st else { st with objs := st.objs.filter fun o => !isUnder k o.key }
